@@ -23,14 +23,14 @@ fn s(t: &str) -> String { let mut o = String::with_capacity(t.len()); o.push_str
 
 /// @harness id=c19_codes_unknown_dropped_individually props=C19 tier=quick unwind=24 mem=8 cap=900
 /// Config::from_raw, executed concretely, with disabled_diagnostics = ["scope-mismatch", "bogus", "circular-dependency",
-/// "Scope-Mismatch", ""]: the two documented codes are kept, each unknown entry (unknown word, wrong case, empty) is
+/// "no-such-code", ""]: the two documented codes are kept, each unknown entry (two unknown words, the empty string) is
 /// dropped on its own — the entries after it are still honoured —, is_diagnostic_disabled answers accordingly for all
 /// three documented codes, and the other settings (skip_plugins, fixture_paths) arrive unchanged.
 #[cfg_attr(kani, kani::proof)]
 #[cfg_attr(kani, kani::stub(core::slice::memchr::memchr, stubs::memchr_bytewise))]
 pub fn c19_codes_unknown_dropped_individually() {
     let mut dd: Vec<String> = Vec::with_capacity(5);
-    dd.push(s("scope-mismatch")); dd.push(s("bogus")); dd.push(s("circular-dependency")); dd.push(s("Scope-Mismatch")); dd.push(s(""));
+    dd.push(s("scope-mismatch")); dd.push(s("bogus")); dd.push(s("circular-dependency")); dd.push(s("no-such-code")); dd.push(s(""));
     let mut sp: Vec<String> = Vec::with_capacity(1);
     sp.push(s("pytest-django"));
     let raw = RawConfig { exclude: Vec::new(), disabled_diagnostics: dd, fixture_paths: Vec::new(), skip_plugins: sp };
@@ -39,7 +39,7 @@ pub fn c19_codes_unknown_dropped_individually() {
     check!("c19.codes.scope_mismatch", c.is_diagnostic_disabled("scope-mismatch"));
     check!("c19.codes.circular", c.is_diagnostic_disabled("circular-dependency"));
     check!("c19.codes.undeclared", !c.is_diagnostic_disabled("undeclared-fixture"));
-    check!("c19.codes.unknown_never_listed", !c.is_diagnostic_disabled("bogus") && !c.is_diagnostic_disabled("Scope-Mismatch") && !c.is_diagnostic_disabled(""));
+    check!("c19.codes.unknown_never_listed", !c.is_diagnostic_disabled("bogus") && !c.is_diagnostic_disabled("no-such-code") && !c.is_diagnostic_disabled(""));
     check!("c19.codes.other_settings_kept", c.skip_plugins.len() == 1 && c.should_skip_plugin("pytest-django") && c.fixture_paths.is_empty());
     reach!("c19.codes.end");
     std::mem::forget(c);
@@ -87,27 +87,36 @@ pub fn c19_bad_glob_individually() {
     std::mem::forget(c);
 }
 
-/// @harness id=c19_unknown_code_any_utf8 props=C19 tier=quick unwind=24 mem=10 cap=1200
-/// Config::from_raw with disabled_diagnostics = [X, "scope-mismatch"] for EVERY valid UTF-8 string X of at most 6 bytes
+macro_rules! unknown_code_arm {
+    ($id:ident, $n:literal) => {
+        #[cfg_attr(kani, kani::proof)]
+        #[cfg_attr(kani, kani::stub(core::slice::memchr::memchr, stubs::memchr_bytewise))]
+        pub fn $id() {
+            let b: [u8; $n] = any();
+            if let Ok(x) = std::str::from_utf8(&b[..]) {
+                note!("disabled_diagnostics = [{:?}, \"scope-mismatch\"]", x);
+                let mut xs = String::with_capacity($n);
+                xs.push_str(x);
+                let mut dd: Vec<String> = Vec::with_capacity(2);
+                dd.push(xs); dd.push(s("scope-mismatch"));
+                let raw = RawConfig { exclude: Vec::new(), disabled_diagnostics: dd, fixture_paths: Vec::new(), skip_plugins: Vec::new() };
+                let c = Config::from_raw(raw, Path::new("/w/pyproject.toml"));
+                check!("c19.anyutf8.only_the_known_code", c.disabled_diagnostics.len() == 1 && c.is_diagnostic_disabled("scope-mismatch"));
+                reach!("c19.anyutf8.end");
+                std::mem::forget(c);
+            }
+        }
+    };
+}
+/// @harness id=c19_unknown_code_utf8_len6 props=C19 tier=quick unwind=24 mem=10 cap=900
+/// Config::from_raw with disabled_diagnostics = [X, "scope-mismatch"] for EVERY valid UTF-8 string X of exactly 6 bytes
 /// (so: every placement of 2-, 3- and 4-byte characters in a short unknown code): no panic, X is dropped on its own and
 /// the documented code after it stays disabled. (Whatever the validator does with the text of an unknown code — build a
 /// message, look for a near match — it must not take the server down.)
-#[cfg_attr(kani, kani::proof)]
-#[cfg_attr(kani, kani::stub(core::slice::memchr::memchr, stubs::memchr_bytewise))]
-pub fn c19_unknown_code_any_utf8() {
-    let b: [u8; 6] = any();
-    let len: usize = any();
-    assume(len <= 6);
-    if let Ok(x) = std::str::from_utf8(&b[..len]) {
-        note!("disabled_diagnostics = [{:?}, \"scope-mismatch\"]", x);
-        let mut xs = String::with_capacity(6);
-        xs.push_str(x);
-        let mut dd: Vec<String> = Vec::with_capacity(2);
-        dd.push(xs); dd.push(s("scope-mismatch"));
-        let raw = RawConfig { exclude: Vec::new(), disabled_diagnostics: dd, fixture_paths: Vec::new(), skip_plugins: Vec::new() };
-        let c = Config::from_raw(raw, Path::new("/w/pyproject.toml"));
-        check!("c19.anyutf8.only_the_known_code", c.disabled_diagnostics.len() == 1 && c.is_diagnostic_disabled("scope-mismatch"));
-        reach!("c19.anyutf8.end");
-        std::mem::forget(c);
-    }
-}
+unknown_code_arm!(c19_unknown_code_utf8_len6, 6);
+/// @harness id=c19_unknown_code_utf8_len5 props=C19 tier=thorough unwind=24 mem=10 cap=900
+/// the same for every valid UTF-8 string of exactly 5 bytes.
+unknown_code_arm!(c19_unknown_code_utf8_len5, 5);
+/// @harness id=c19_unknown_code_utf8_len7 props=C19 tier=quick unwind=24 mem=10 cap=900
+/// the same for every valid UTF-8 string of exactly 7 bytes.
+unknown_code_arm!(c19_unknown_code_utf8_len7, 7);
